@@ -190,6 +190,10 @@ class FnTranslator:
                     if e.attr in getattr(self.unit, 'attr_consts', {}):
                         return ('true' if self.unit.attr_consts[e.attr] else 'false'), BOOL
                     if e.attr not in t.fields:
+                        pu = self.tr.unit_by_pyname(self.unit.file, e.attr, pycls=getattr(self.unit, 'pycls', None)) \
+                            if getattr(self.unit, 'pycls', None) else None
+                        if pu is not None and getattr(pu, 'is_property', False):
+                            return f'(← {pu.lean_name} {self.self_args(pu, e.value.id, t)})', pu.ret
                         raise Untranslatable(f'attribute {e.attr} of {e.value.id}')
                     return f'{e.value.id}_{e.attr}', t.fields[e.attr]
                 if t == 'Self':
@@ -587,6 +591,30 @@ class FnTranslator:
                 args = [self.expr(a) for a in e.args]
                 if all(t == INT for _, t in args):
                     return '(%s %s)' % (n, ' '.join(a for a, _ in args)), INT
+            if n == 'sum' and len(e.args) == 1 and not e.keywords and isinstance(e.args[0], ast.GeneratorExp) \
+                    and len(e.args[0].generators) == 1 and not e.args[0].generators[0].ifs \
+                    and isinstance(e.args[0].generators[0].target, ast.Name):
+                # sum(ELT for x in self): the object's own (translated) __iter__ runs to its end, the values are added from 0
+                g = e.args[0].generators[0]
+                if isinstance(g.iter, ast.Name) and g.iter.id in self.env and isinstance(self.env[g.iter.id][1], Rec) \
+                        and getattr(self.unit, 'pycls', None):
+                    it = self.tr.unit_by_pyname(self.unit.file, '__iter__', pycls=self.unit.pycls)
+                    if it is None:
+                        raise Untranslatable('iteration over an object whose __iter__ is not translated')
+                    src = f'(← {it.lean_name} {self.self_args(it, g.iter.id, self.env[g.iter.id][1])})'
+                    et = it.ret[1]
+                    v = g.target.id
+                    saved = self.env.get(v)
+                    self.env[v] = (v, et)
+                    body, bt = self.expr(e.args[0].elt)
+                    if saved is None:
+                        del self.env[v]
+                    else:
+                        self.env[v] = saved
+                    if bt != INT or '←' in body:
+                        raise Untranslatable('sum of ' + str(bt))
+                    return f'(List.foldl (fun acc__ {v} => acc__ + {body}) (0 : Int) {src})', INT
+                raise Untranslatable('sum form')
             if n == 'abs' and len(e.args) == 1:
                 a, t = self.expr(e.args[0])
                 return f'(Int.ofNat (Int.natAbs {a}))', INT
@@ -746,6 +774,20 @@ class FnTranslator:
             if u is not None:
                 return f'(← {u.lean_name} ext {self.extra_args(u)}{self.pm_args(u, e)})', (u.ret if u.ret is not None else NONE)
         return None
+
+    def self_args(self, callee, name, rec):
+        """the arguments of a translated method of the same object: the fields its `self` record has, taken from ours, and
+        the function parameters it has, which must be ours too"""
+        crec = callee.params[0][1]
+        if not (callee.params and callee.params[0][0] == 'self' and isinstance(crec, Rec)) or len(callee.params) != 1:
+            raise Untranslatable('method of self with arguments')
+        for k, kt in crec.fields.items():
+            if rec.fields.get(k) != kt:
+                raise Untranslatable(f'{callee.name} needs the field {k} of self')
+        for fname in getattr(callee, 'fn_params', {}):
+            if fname not in getattr(self.unit, 'fn_params', {}):
+                raise Untranslatable(f'{callee.name} needs the function parameter {fname}')
+        return ' '.join([f'{name}_{k}' for k in crec.fields] + list(getattr(callee, 'fn_params', {})))
 
     def flat_args(self, u, args, nodes):
         out = []
@@ -1946,7 +1988,17 @@ class Translator:
         if not cands:
             raise Untranslatable(f'function {name} not found in {file}')
         if len(cands) > 1:
-            raise Untranslatable(f'function {name} is defined more than once in {file}')
+            # a property with its setter / deleter: the getter is what an attribute read calls
+            def is_acc(n):
+                return len(n.decorator_list) == 1 and isinstance(n.decorator_list[0], ast.Attribute) and \
+                    isinstance(n.decorator_list[0].value, ast.Name) and n.decorator_list[0].value.id == name and \
+                    n.decorator_list[0].attr in ('setter', 'deleter')
+            getters = [n for n in cands if not is_acc(n)]
+            if len(getters) == 1 and len(getters[0].decorator_list) == 1 and isinstance(getters[0].decorator_list[0], ast.Name) \
+                    and getters[0].decorator_list[0].id == 'property':
+                cands = getters
+            else:
+                raise Untranslatable(f'function {name} is defined more than once in {file}')
         for n in body:
             tg = []
             if isinstance(n, ast.Assign):
@@ -1958,7 +2010,7 @@ class Translator:
         for d in cands[0].decorator_list:
             # a decorator changes what a call of the function does (a cache makes callers share one result object):
             # only the ones that merely bind the first argument are within the fragment
-            if not (isinstance(d, ast.Name) and d.id in ('classmethod', 'staticmethod', 'contextmanager')):
+            if not (isinstance(d, ast.Name) and d.id in ('classmethod', 'staticmethod', 'contextmanager', 'property')):
                 raise Untranslatable(f'function {name} is decorated with {ast.unparse(d)}')
         return cands[0]
 
@@ -2203,6 +2255,14 @@ def units():
     u.pycls, u.keep_self, u.group = 'MidiFile', True, 'Timing'
     u.fn_params = {'tick2second': 'Int → Int → Int → Int'}
     u.hoist = True
+    U.append(u)
+
+    u = Unit(MF, 'length', [('self', Rec({'type': INT, 'merged_track': LIST(MSG), 'ticks_per_beat': INT}))], INT, lean_name='MidiFile.length')
+    u.pycls, u.keep_self, u.group, u.is_property = 'MidiFile', True, 'Timing', True
+    u.fn_params = {'tick2second': 'Int → Int → Int → Int'}
+    U.append(u)
+    u = Unit(MF, 'merged_track', [('self', Rec({'type': INT, 'tracks': LIST(LIST(MSG))}))], LIST(MSG), lean_name='MidiFile.merged_track')
+    u.pycls, u.keep_self, u.is_property = 'MidiFile', True, True
     U.append(u)
 
     def meta(cls, attrs, dec_extra=None, checks=True):
